@@ -327,6 +327,9 @@ def class_consts(idx, qual):
     for k, v in c.attrs.items():
         if isinstance(v, ast.Constant) and isinstance(v.value, (str, int, float, bool)):
             out[k] = v.value
+        elif isinstance(v, ast.UnaryOp) and isinstance(v.op, ast.USub) and isinstance(v.operand, ast.Constant) \
+                and isinstance(v.operand.value, (int, float)) and not isinstance(v.operand.value, bool):
+            out[k] = -v.operand.value
     return out
 
 
